@@ -48,6 +48,16 @@ def payloads(rng, tier):
         table = gen.random_table(rng, len(rows)) if rng.random() < 0.5 else None
         yield "roundtrip", {"k": k, "rows": rows, "v0": v0, "bits": bits, "fast": fast, "table": table,
                             "vt": rng.choice([0, 0, 1, 2, 5, 33, 40]), "kind": kind, "reuse": rng.random() < 0.5}
+    # messages whose PREFIX VALUES are "mantissa x power of ten" (m * 10^e, then a few more bits): the decimal arithmetic behind the
+    # normal mode sees numerals with long runs of zeros, blocks equal to 5 * 10^17, 25 * 10^16 ... and carries that just do or just
+    # do not happen -- what block-wise (9 / 18 digits at a time) big-number code gets wrong
+    for e in range({"quick": 16, "thorough": 9, "search": 30}[tier], {"quick": 58, "thorough": 120, "search": 40}[tier]):
+        for m in ([5, 15, 25, 125, 1, 3] if tier != "search" else [15, 5]):
+            k, kind, rows, v0 = cc.graph_case(rng, min(kmax, 2))
+            bits = [int(c) for c in bin(m * 10 ** e)[2:]] + [rng.randint(0, 1) for _ in range(rng.randint(1, 3))]
+            yield "roundtrip", {"k": k, "rows": rows, "v0": v0, "bits": bits, "fast": False,
+                                "table": gen.random_table(rng, len(rows)) if rng.random() < 0.3 else None,
+                                "vt": rng.choice([0, 0, 2]), "kind": kind, "reuse": False}
     # twin messages: the call under test is preceded by a round trip of a RELATED message on the same graph (same length, same
     # first and last bits, same number of ones, different middle / identical / same middle and different edges) -- whatever a
     # function remembers about its previous argument through a lossy summary shows up here.  Lengths include > 1000 bits (where
